@@ -380,7 +380,7 @@ P_TS = 'exactly_lib.section_document.element_parsers.token_stream'
 class StringIOI(Interface):
     """io.StringIO over the source text: a position that tell() reads and seek(p) sets."""
     target_class = io.StringIO
-    attrs = {'pos': Nat}
+    attrs = {'pos': Nat, 'text': Str}      # text: the characters the stream was made over (never changes)
     methods = {
         'tell': Method(model=lambda interp, self, args, kwargs: interp.getattr(self, 'pos')),
         'seek': Method(model=lambda interp, self, args, kwargs: _seek_model(interp, self, args)),
@@ -424,7 +424,7 @@ print('after consuming the head: is_null =', ts.is_null, ' remaining_source =', 
 sys.exit(1 if (lexer.commenters != '' or ts.head is None or ts.head.string != 'c') else 0)
 """
 
-M.contract(P_TS + ':TokenStream._new_lexer', params=dict(self=TS),
+M.contract(P_TS + ':TokenStream._new_lexer', params=dict(self=TS), inline=True,
            ensures={
                'posix-mode': lambda result: result.posix is True,
                'split-on-white-space-only': lambda result: result.whitespace_split is True,
@@ -502,6 +502,19 @@ M.contract(P_TS + ':TokenStream.consume', params=dict(self=TS), trusted=True,
 M.trust('TokenStream.consume: raises TokenSyntaxError exactly when a syntax error description is pending (its first statement); the value returned is the head token as it was (`ret_val = self._head_token`); the next statement is `self._start_pos = self._source_io.tell()`; '
         'the lexer only moves forward and not beyond the end (frame contract; token boundaries: bounded stand-in)')
 
+def blank(text):
+    return text == '' or text.isspace()
+
+
+def note_skipped_text(ghost, text):
+    """Ghost monitor for callers that DISCARD the text this function returns (the list element loop): if the
+    monitor variable exists it stays true only while every skipped text is blank or a lone continuation token `\\`
+    (surrounded by white space only)."""
+    if 'skipped_only_blank_or_continuation' in ghost:
+        ghost['skipped_only_blank_or_continuation'] = (ghost['skipped_only_blank_or_continuation']
+                                                       and (blank(text) or text.strip() == '\\'))
+
+
 M.contract(P_TS + ':TokenStream._consume_remaining_part_of_current_line',
            params=dict(self=TS, do_forward_to_next_line=Bool),
            old=lambda self: (self._start_pos, self._source),
@@ -516,6 +529,7 @@ M.contract(P_TS + ':TokenStream._consume_remaining_part_of_current_line',
                'advances-to-the-line-break-or-past-it': lambda self, do_forward_to_next_line, old, result:
                self._start_pos == (old[0] + len(result) if old[0] + len(result) == len(old[1])
                                    else old[0] + len(result) + (1 if do_forward_to_next_line else 0)),
+               'skipped-text-monitor': (lambda ghost, result: note_skipped_text(ghost, result), 'effect'),
            },
            raises_only=())
 
@@ -1156,10 +1170,6 @@ from contracts.common import forall_range  # noqa: E402
 P_GP = 'exactly_lib.impls.types.list_.generic_parser'
 
 
-def blank(text):
-    return text == '' or text.isspace()
-
-
 class ElementI(Interface):
     """result of the element parser: only its abstract image (the source text of the consumed token) is used"""
     target_class = Either
@@ -1212,6 +1222,7 @@ EUEOLP = Inst(ElementsUntilEndOfLineParser2, _element_parser=Iface(ElementParser
 def _setup_consumed(interp, args, ghosts):
     from pyvc.mlist import MList
     interp.st.ghost['consumed'] = MList(interp, interp.st.fresh_name('consumed'), ('str',))
+    interp.st.ghost['skipped_only_blank_or_continuation'] = True
     return None
 
 
@@ -1219,13 +1230,40 @@ def same_items(xs, ys):
     return len(xs) == len(ys) and forall_range(0, len(xs), lambda k: xs[k] == ys[k])
 
 
+_LIST_REPLAY = """
+import warnings
+warnings.simplefilter('ignore')
+from exactly_lib.impls.types.list_ import parse_list
+from exactly_lib.section_document.element_parsers.token_stream_parser import new_token_parser
+from exactly_lib.util.symbol_table import empty_symbol_table
+BS = chr(92)
+bad = []
+for source, expected, expected_rest in (
+        ('a ' + BS + ' b' + chr(10) + 'next', ['a', BS, 'b'], chr(10) + 'next'),     # a lone backslash inside the line
+        ('a ' + BS + '  ' + chr(10) + ' b' + chr(10) + 'next', ['a', 'b'], chr(10) + 'next'),   # continuation
+        ('a b ) c', ['a', 'b'], ') c')):                                               # stop token
+    tp = new_token_parser(source)
+    ddv = parse_list.parse_list_from_token_parser(tp).resolve(empty_symbol_table())
+    actual = [e.value_when_no_dir_dependencies() for e in ddv.string_elements]
+    rest = tp.token_stream.remaining_source
+    print('%r: elements %r rest %r (the written elements: %r, rest %r)' % (source, actual, rest, expected, expected_rest))
+    if actual != expected or rest != expected_rest:
+        bad.append(source)
+sys.exit(1 if bad else 0)
+"""
+
 M.contract(P_GP + ':ElementsUntilEndOfLineParser2.parse', params=dict(self=EUEOLP, token_parser=TP),
-           setup=_setup_consumed,
+           setup=_setup_consumed, replay=lambda model, rf: _LIST_REPLAY,
            old=lambda token_parser: _tp_state(token_parser),
-           modifies={**_TS_FRAME, 'ghost:consumed': MListOf(Str)},
+           modifies={**_TS_FRAME, 'ghost:consumed': MListOf(Str), 'ghost:skipped_only_blank_or_continuation': Bool},
            raises={SingleInstructionInvalidArgumentException: {}},
            returns=MListOf(Str),
            ensures={
+               # "list elements are exactly the written elements", "following arguments are not swallowed": the only
+               # text of the source that is passed over without being parsed as an element is white space and the
+               # continuation token `\\` when nothing but white space follows it on its line
+               'nothing-but-blank-text-and-line-continuations-is-skipped': lambda ghost:
+               ghost['skipped_only_blank_or_continuation'],
                'one-element-per-consumed-token-in-order': lambda result, ghost: same_items(result, ghost['consumed']),
                'source-unchanged': lambda token_parser, old: _hd_source(token_parser) == old[2],
                'stops-at-the-line-break-or-before-the-stop-token': lambda token_parser:
@@ -1238,9 +1276,10 @@ M.contract(P_GP + ':ElementsUntilEndOfLineParser2.parse', params=dict(self=EUEOL
 M.loop(P_GP + ':ElementsUntilEndOfLineParser2.parse', 0,
        invariant=lambda token_parser, ret_val, old, ghost:
        same_items(ret_val, ghost['consumed']) and _hd_source(token_parser) == old[2]
-       and ts_inv(token_parser._token_stream),
+       and ts_inv(token_parser._token_stream)
+       and ghost['skipped_only_blank_or_continuation'],
        modifies={**_TS_FRAME, 'ret_val': MListOf(Str), 'sym_name_or_element': 'local',
-                 'ghost:consumed': MListOf(Str)})
+                 'ghost:consumed': MListOf(Str), 'ghost:skipped_only_blank_or_continuation': Bool})
 
 
 # ------------------------------------------------------------------------------ bounded stand-in: leftmost references
@@ -1354,3 +1393,127 @@ def lemma_skip_is_safe(s, a):
 
 M.contract('contracts.C09_strings:lemma_skip_is_safe', params=dict(s=Str, a=Nat),
            ensures={'no-candidate-starts-in-the-skipped-region': lambda result: result}, raises_only=())
+
+
+# ------------------------------------------------------------------------------ TokenStream.__init__
+
+def _stringio_model(interp, args, kwargs):
+    """io.StringIO(source): a stream over the text, positioned at 0 (only the position is modelled)"""
+    from pyvc.api import new_opaque
+    return new_opaque(interp, StringIOI, 'source_io', preset={'pos': 0, 'text': args[0] if args else ''})
+
+
+M.model(io.StringIO, _stringio_model)
+
+_TS_FIELDS = {'self._source': Str, 'self._source_io': Iface(StringIOI), 'self._lexer': Any_, 'self._start_pos': Nat,
+              'self._head_syntax_error_description': Opt(Str), 'self._head_token': Opt(TOKEN)}
+
+M.contract(P_TS + ':TokenStream.__init__', params=dict(self=Inst(TokenStream), source=Str),
+           modifies=_TS_FIELDS,
+           ensures={
+               'reads-the-given-source-from-its-start': lambda self, source:
+               self._source == source and self._start_pos == 0,
+               'the-lexer-reads-the-same-text': lambda self, source:
+               self._source_io.text == source,      # (`_new_lexer : reads-the-source`: the lexer reads this stream)
+               'representation-invariant': lambda self: ts_inv(self),
+               # the first token is looked ahead by one `consume` (bounded stand-in), nothing else is consumed
+               'one-look-ahead': (lambda self, trace: len(consume_events(trace)) == 1
+                                  and consume_events(trace)[0][1] is self and consume_events(trace)[0][2] is None,
+                                  'check-only'),
+           },
+           raises_only=())
+
+
+# ------------------------------------------------------------------------------ bounded stand-in: parse_list end to end
+# The element loop is proved for an abstract element parser; this runs the real `parse_list` (the loop instantiated with
+# SymbolReferenceOrStringParser and _MkElement, on the real TokenStream) against the documented list syntax.
+
+def reference_list(source):
+    """Documented LIST syntax on one logical line: elements are the tokens up to END-OF-LINE or an unquoted `)`;
+    an unquoted `\\` that is the last thing on its line (only white space after it) continues the list on the next
+    line.  Returns (elements, rest) or 'error' (unterminated quote).  rest: what follows the list (from the line
+    break that ends it, or from the stop token)."""
+    pos = 0
+    elements = []
+    while True:
+        nl = source.find('\n', pos)
+        line_end = len(source) if nl == -1 else nl
+        rest_of_line = source[pos:line_end]
+        if rest_of_line.strip(' \t\r') == '':
+            return elements, source[line_end:]
+        if rest_of_line.strip(' \t\r') == '\\':
+            pos = line_end if nl == -1 else nl + 1
+            continue
+        tokens, error = reference_tokens(source[pos:])
+        if not tokens:
+            return 'error'
+        string, src, start, end = tokens[0]
+        if src == ')':
+            return elements, source[pos + start:]
+        if string == ')' and src[0] not in '\'"':
+            # `)` written with an empty quoted fragment next to it (`)''`): whether that is "an unquoted )" is the
+            # mixed-quoting question of 4.2 (the code decides by the first source character); not judged here
+            return 'ambiguous'
+        elements.append(string)
+        pos += end
+
+
+_LIST_BOUNDED_REPLAY = """
+from contracts.C09_strings import _observe_parse_list
+problems = _observe_parse_list(%r)
+print(problems)
+sys.exit(1 if problems else 0)
+"""
+
+
+def _observe_parse_list(source):
+    import warnings
+    warnings.simplefilter('ignore')
+    from exactly_lib.impls.types.list_ import parse_list
+    from exactly_lib.section_document.element_parsers.token_stream_parser import new_token_parser
+    from exactly_lib.util.symbol_table import empty_symbol_table
+    expected = reference_list(source)
+    if expected == 'ambiguous':
+        return []
+    try:
+        tp = new_token_parser(source)
+        ddv = parse_list.parse_list_from_token_parser(tp).resolve(empty_symbol_table())
+        actual = ([e.value_when_no_dir_dependencies() for e in ddv.string_elements],
+                  tp.token_stream.remaining_source)
+    except SingleInstructionInvalidArgumentException:
+        actual = 'error'
+    if expected == 'error' or actual == 'error':
+        return [] if expected == actual else ['%r: %r, the documented syntax gives %r' % (source, actual, expected)]
+    # white space between the last element and what follows may or may not have been consumed
+    if actual[0] != expected[0] or actual[1].lstrip(' \t\r') != expected[1].lstrip(' \t\r'):
+        return ['%r: elements %r rest %r, the documented syntax gives %r rest %r'
+                % (source, actual[0], actual[1], expected[0], expected[1])]
+    return []
+
+
+@M.bounded('parse_list (elements of a list line)')
+def _bounded_parse_list(ctx):
+    import itertools
+    alphabet = 'a \\\n)\''
+    max_len = 7 if ctx.tier == 'thorough' else 6
+
+    def inputs():
+        for n in range(0, max_len + 1):
+            for tup in itertools.product(alphabet, repeat=n):
+                yield ''.join(tup)
+
+    def check_one(src):
+        try:
+            problems = _observe_parse_list(src)
+        except Exception as e:
+            problems = ['exception %r' % (e,)]
+        if problems:
+            return {'input': src, 'expected': 'the written elements', 'actual': problems[0],
+                    'replay': _LIST_BOUNDED_REPLAY % src}
+        return None
+
+    cases, failures = _enumerate_with_watchdog(inputs(), check_one)
+    ctx.bounded_result('parse_list', 'all sources of length <= %d over %r' % (max_len, alphabet), cases,
+                       exhaustive=True, failures=failures,
+                       note='real parse_list (element loop + SymbolReferenceOrStringParser + TokenStream) vs. the '
+                            'documented list syntax: elements, what follows the list, syntax errors')
